@@ -56,6 +56,12 @@ def step (s : St) (line : String) : St × String :=
     match Spec.evalRPN toks with
     | some u => (s, "u=" ++ Spec.hexOfUnits u)
     | none => bad
+  | ["X", h] =>
+    -- SPEC observations derived from a unit list: QuoteJSONString and the code-point segmentation
+    match Spec.parseUnits (hx h) with
+    | some u => (s, "q=" ++ Spec.hexOfUnits (Spec.jsonQuote u) ++ " cp=" ++
+        String.join ((Spec.codePoints u).map Spec.hex6) ++ " it=" ++ String.join ((Spec.lenientDecode u).map Spec.hex6))
+    | none => bad
   | ["reset"] => ({}, "ok")
   | ["tv", d, h] =>
     match nat? d, Spec.parseBytes (hx h) with
